@@ -718,3 +718,12 @@ package value
 //@   property C05
 //@   yields yield
 //@   callback "range v.m.Iter" invariant !yieldstopped() && !yieldbad()
+
+// ---------------------------------------------------------------- `list ~ list` consumes a copy (C09, C10)
+// containsAllItems removes every item it has found from its search slice, in place. That slice must be the function's
+// own copy of the right operand (CopyToSlice), never the operand's storage (seeds C10-2 / C09-4): the slice is fresh
+// when the loop over the left operand starts and stays so through every removal.
+//@ func (l *List) containsAllItems
+//@   property C09, C10
+//@   requires l != nil && lookForList != nil && validStack(st)
+//@   callback "range l.iterable(st)" invariant[removes-from-its-own-copy] fresh(lookFor)
